@@ -51,6 +51,10 @@ def letters_for_cfg(cfg):
                 continue
             for addr in waddrs:
                 L.append(("win", waw, kind, addr, wal))
+    # dense windows of ratio 8 and 16 (one and two parent addresses)
+    for waw, kind, wal in ((3, "dense8", 3), (4, "dense8", 3)) + (() if thin else ((4, "dense16", 4),)):
+        for addr in (None, 0, 1, 2):
+            L.append(("win", waw, kind, addr, wal))
     for k in (0, 1, 2, 3):
         L.append(("align", k))
     L.append(("freeze",))
@@ -157,10 +161,10 @@ def execute_factory(cfg):
                         first_res, first_name = res, (f"p{pos}",)
                 elif kind == "win":
                     _, waw, wk, addr, wal = op
-                    wdw = {"same": DW, "sparse": 8, "dense2": 8, "dense4": 4}[wk]
-                    ratio = {"same": 1, "sparse": 1, "dense2": 2, "dense4": 4}[wk]
+                    wdw = {"same": DW, "sparse": 8, "dense2": 8, "dense4": 4, "dense8": 2, "dense16": 1}[wk]
+                    ratio = {"same": 1, "sparse": 1, "dense2": 2, "dense4": 4, "dense8": 8, "dense16": 16}[wk]
                     w = MemoryMap(addr_width=waw, data_width=wdw, alignment=wal)
-                    sp = {"same": None, "sparse": True, "dense2": False, "dense4": False}[wk]
+                    sp = {"same": None, "sparse": True}.get(wk, False)
                     if ref.frozen:
                         exp = ("rej",)
                     elif ratio == 1:
